@@ -45,7 +45,8 @@ def _pb_tp(tp_id, line):
 
 CONFIGS = [("hA", [("A1", 7)]), ("hB", [("B1", 7), ("B2", 8)]), ("hC", [])]
 # operations: 0..2 poll->UPDATE(config i)  3 poll->NO_CHANGE  4 poll raises  5 poll->unintelligible  6 register  7 unregister(first live)
-N_OPS = 8
+#             8 poll->UPDATE with a new hash whose content cannot be converted (a metric of a type this agent does not know)
+N_OPS = 9
 
 
 def _run(ops, preempt, picks):
@@ -110,7 +111,13 @@ def _run(ops, preempt, picks):
                 script.append("raise")
             elif op == 5:
                 script.append(object())
-            if op <= 5:
+            elif op == 8:
+                from deepproto.proto.tracepoint.v1.tracepoint_pb2 import TracePointConfig, Metric
+                bad = TracePointConfig(ID="X1", path="f.py", line_number=7, args={"fire_count": "-1"}, watches=[],
+                                       metrics=[Metric(name="m", type=99)])
+                # nothing of it can be installed, so nothing changes - in particular the agent must not start reporting hX
+                script.append(PollResponse(ts_nanos=7, current_hash="hX", response_type=ResponseType.UPDATE, response=[_pb_tp("X0", 7), bad]))
+            if op <= 5 or op == 8:
                 try:                                   # RepeatedTimer._target: one loop iteration survives Exception
                     yield from gen_call(lp.poll)
                 except Exception:
@@ -162,7 +169,7 @@ def converge(o1: int, o2: int, o3: int, o4: int, n: int, p1: int, t1: int, k1: i
     register, unregister), applied by the two pool workers under a schedule with one pre-emption at a SYMBOLIC step:
     at quiescence the installed set is the last UPDATE plus the live registrations, the reported hash is the last
     UPDATE's, and failed polls change nothing.
-    PRE: 0 <= o1 <= 7 and 0 <= o2 <= 7 and 0 <= o3 <= 7 and 0 <= o4 <= 7 and 1 <= n <= 4
+    PRE: 0 <= o1 <= 8 and 0 <= o2 <= 8 and 0 <= o3 <= 8 and 0 <= o4 <= 8 and 1 <= n <= 4
     PRE: 0 <= p1 <= 100 and 0 <= t1 <= 2 and 0 <= k1 <= 1 and 0 <= k2 <= 1
     PRE: n >= 4 or o4 == 0
     PRE: n >= 3 or o3 == 0
@@ -178,7 +185,7 @@ def converge2(o1: int, o2: int, p1: int, d: int) -> str:
     """
     Two operations with TWO pre-emptions: to worker 1 at a SYMBOLIC step, and back to the driver d steps later - i.e. the
     second operation arrives while a worker is in the middle of applying the first.
-    PRE: 0 <= o1 <= 7 and 0 <= o2 <= 7 and 0 <= p1 <= 70 and 1 <= d <= 14
+    PRE: 0 <= o1 <= 8 and 0 <= o2 <= 8 and 0 <= p1 <= 70 and 1 <= d <= 14
     POST: _ == ""
     """
     world.begin_path()
@@ -257,13 +264,13 @@ CONDITIONS = [
                                 "thorough": ["o1 == %d and o2 == %d and %s" % (a, b, r) for a in (0, 6, 7) for b in (0, 1, 3, 6, 7) for r in ("p1 <= 20", "20 < p1 <= 34", "34 < p1 <= 48", "p1 > 48")]},
          twins=["reach"], timeout={"quick": 240, "thorough": 900},
          bounds="two operations (quick: UPDATE,UPDATE and UPDATE,register) with two pre-emptions: to worker 1 at a symbolic step (quick <= 48, thorough <= 70) and back to the driver 1-10 (thorough 1-14) steps later"),
-    dict(fn="converge", cubes={"quick": ["n == 2 and o1 == %d and o2 %s and t1 == %d and k1 == 0 and k2 == 0" % (a, b, t) for a in (0, 3, 4, 5, 6, 7) for b in ("<= 3", ">= 4") for t in (1,)] +
-                                        ["n == 3 and o1 == %d and o2 == %d and o3 == %d and t1 == 1 and k1 == 0 and k2 == 0" % h3 for h3 in ((0, 1, 2), (0, 1, 6), (6, 0, 1), (6, 0, 7), (0, 4, 1), (0, 5, 1))],
-                               "thorough": ["n == 3 and o1 == %d and o2 == %d and o3 %s and t1 == 1 and k1 == 0 and k2 == 0" % (a, b, c) for a in range(8) for b in range(8) for c in ("<= 3", ">= 4")] +
-                                           ["n == 2 and o1 == %d and t1 == %d and k1 == 0 and k2 == 0" % (a, t) for a in range(8) for t in (0, 2)]},
+    dict(fn="converge", cubes={"quick": ["n == 2 and o1 == %d and o2 %s and t1 == %d and k1 == 0 and k2 == 0" % (a, b, t) for a in (0, 3, 4, 5, 6, 7, 8) for b in ("<= 3", ">= 4") for t in (1,)] +
+                                        ["n == 3 and o1 == %d and o2 == %d and o3 == %d and t1 == 1 and k1 == 0 and k2 == 0" % h3 for h3 in ((0, 1, 2), (0, 1, 6), (6, 0, 1), (6, 0, 7), (0, 4, 1), (0, 5, 1), (0, 8, 3), (8, 6, 0))],
+                               "thorough": ["n == 3 and o1 == %d and o2 == %d and o3 %s and t1 == 1 and k1 == 0 and k2 == 0" % (a, b, c) for a in range(9) for b in range(9) for c in ("<= 3", ">= 4")] +
+                                           ["n == 2 and o1 == %d and t1 == %d and k1 == 0 and k2 == 0" % (a, t) for a in range(9) for t in (0, 2)]},
          twins=["reach", "mutant:hash_not_stored@n == 2 and o1 == 0 and o2 <= 3 and t1 == 1 and k1 == 0 and k2 == 0", "mutant:no_change_clears@n == 2 and o1 == 0 and o2 <= 3 and t1 == 1 and k1 == 0 and k2 == 0",
-                "mutant:captured_config@n == 2 and o1 == 0 and o2 <= 3 and t1 == 1 and k1 == 0 and k2 == 0"],
+                "mutant:captured_config@n == 2 and o1 == 0 and o2 == 2 and t1 == 1 and k1 == 0 and k2 == 0"],
          timeout={"quick": 240, "thorough": 900},
-         bounds="quick: the histories of 2 operations whose first is UPDATE(A) / NO_CHANGE / failing poll / unintelligible / register / unregister, and 6 histories of 3 (several updates / registrations in flight) over 8 operation kinds, pre-emption to worker 1; thorough: all histories of 3 (pre-emption to worker 1) and of 2 (pre-emption to the driver / worker 2); one pre-emption at a SYMBOLIC step "
+         bounds="quick: the histories of 2 operations whose first is UPDATE(A) / NO_CHANGE / failing poll / unintelligible / unconvertible UPDATE / register / unregister, and 8 histories of 3 (several updates / registrations in flight) over 9 operation kinds, pre-emption to worker 1; thorough: all histories of 3 (pre-emption to worker 1) and of 2 (pre-emption to the driver / worker 2); one pre-emption at a SYMBOLIC step "
                 "index (0..100); forced switches by picks"),
 ]
